@@ -20,8 +20,8 @@ Inductive skind :=
 Definition kind_of (s : stmt) : skind :=
   match s with
   | SV _ => KV | SE _ => KE
-  | SIn _ | SOut _ | SBoth _ => KToVertex
-  | SInE _ | SOutE _ | SBothE _ => KToEdge
+  | SIn _ | SOut _ | SBoth _ | SInNull _ | SOutNull _ => KToVertex
+  | SInE _ | SOutE _ | SBothE _ | SInENull _ | SOutENull _ => KToEdge
   | SHas _ => KHas
   | SHasLabel l | SHasId l | SHasKey l => KHasList (match l with [] => true | _ => false end)
   | SAs n => KAs n | SSelect ns => KSelect ns
